@@ -10,6 +10,13 @@ tie        : correspondence by line protocol: random op histories (length <= 12)
              bytes are in the target; the same history is run by the Lean model driver and the traces are diffed
 search     : direct oracle on the implementation — the clauses of the property as assertions on those
              observations, independent of the model (see `oracle_reader`, `oracle_writer`)
+extension  : Props/C19Ctor.lean (reader construction as phases: created temp files are registered), Props/C19Blocks.lean
+             (writers over blocked image segments: per-block accounting, conjunction, hand-over), Bridge/Life.lean (the
+             decision kernels regenerated from /repo by translate/gen_life.py equal the reference definitions); object
+             kinds of harness/c19x.py: NITFReader over JPEG / JPEG 2000 compressed NITF (temp files sarpy creates itself),
+             re-entrant BaseReader construction, general NITFWriter / SICDWriter / SIDDWriter over blocked and
+             multi-segment (row limit) images with adversarial chunk orders and non-forced flushes, CRSDWriter1, HDF5
+             leaves, readers sharing children (DAG, through the tree unfolding)
 """
 import builtins
 import gc
@@ -33,6 +40,31 @@ REQUIRED = [
     'w_existing_path_refused_unless_disabled', 'w_clobber_only_if_disabled',
     'w_claims_iff_complete_partial', 'w_incomplete_never_claims_written_partial', 'w_caller_file_complete_partial',
     'claims_without_fresh_is_false',
+    # Props/C19Ctor.lean - reader construction as a sequence of phases
+    'c_created_registered', 'c_never_fails_after_init', 'nitfCtor_ok', 'baseCtor_ok', 'unguarded_base_init_loses_all',
+    'ctor_invariant_needs_guard', 'c_temp_files_removed', 'c_temp_files_kept_while_open', 'c_unguarded_leaves_file',
+    # Props/C19Blocks.lean - writers over blocked image segments
+    'conj_eq_all', 'conj_cons', 'conj_append', 'claims_iff_all_blocks', 'lastOnly_eq_getLast', 'blk_claims_iff',
+    'wb_close_idempotent', 'wb_exit_is_close', 'wb_del_is_close', 'wb_closed_after_close', 'wb_use_after_close',
+    'wb_use_after_close_history', 'wb_caller_file_never_closed', 'wb_owned_file_closed', 'wb_closed_full_size',
+    'wb_existing_path_refused_unless_disabled', 'wb_claims_iff_complete_partial',
+    'wb_incomplete_never_claims_written_partial', 'wb_handed_only_when_complete_partial',
+    'wb_no_written_pixel_lost_partial', 'wb_caller_file_complete_partial', 'hand_iff_shouldHand', 'lastOnly_is_unsound',
+    'lastOnly_loses_rows',
+    # Props/C19Exist.lean - the existence check over what is at the path x check_existence
+    'e_refused_iff', 'e_default_is_checked', 'e_refusal_independent_of_content', 'e_empty_like_nonempty',
+    'e_refused_keeps_target', 'e_existing_kept_unless_disabled', 'e_clobber_only_if_disabled', 'e_enabled_keeps',
+    'e_agrees_with_winit', 'e_agrees_with_wbinit', 'size_sensitive_check_overwrites',
+]
+
+# Bridge/Life.lean: the kernels regenerated from /repo (translate/gen_life.py) are the reference definitions
+BRIDGE_MODULE, BRIDGE_NS = 'SarpyModel.Bridge.Life', 'Sarpy.Bridge.Life'
+BRIDGE_REQUIRED = [
+    'gen_blockAggClaims', 'gen_blockAggClaims_read', 'gen_bandAggClaims', 'gen_arrayClaims', 'gen_subsetClaims',
+    'gen_handDecision', 'gen_handGuards', 'gen_closeForces', 'gen_baseReaderInit', 'gen_handlers_register',
+    'gen_nitfReaderInit', 'gen_nitfRefuses', 'gen_cphdRefuses', 'gen_sioRefuses', 'gen_checkDefaults', 'gen_checkPassedOn',
+    'code_refusal_ignores_size', 'code_block_claims_iff_all', 'code_ctor_registers_all', 'code_ctor_guarded',
+    'code_flush_needs_claim',
 ]
 
 # stable keys of the genuine defects this check can classify (see NOTES_C19.md)
@@ -110,11 +142,17 @@ R0, C0 = 3, 4          # every leaf is a 3 x 4 uint16 array
 INDEXED = ('reader', 'flat', 'aggreader', 'filereader', 'basewriter')      # root kinds whose use op takes an index
 
 
+H5 = []          # file indices of the case being generated that are HDF5 files (h5py.File objects), set by gen_reader_case
+
+
 def gen_leaf(rng, nfiles, mode='r'):
     k = rng.choice(['array', 'array', 'memmap', 'fileread'] if mode == 'r' else ['array', 'memmap'])
     if k == 'array' or nfiles == 0:
         return {'k': 'array', 'prop': True, 'file': None, 'cf': False, 'kids': []}
-    return {'k': k, 'prop': True, 'file': rng.randrange(nfiles), 'cf': rng.random() < 0.5, 'kids': []}
+    f = rng.randrange(nfiles)
+    if f in H5:
+        k = 'hdf5'
+    return {'k': k, 'prop': True, 'file': f, 'cf': rng.random() < 0.5, 'kids': []}
 
 
 def gen_seg(rng, depth, nfiles, allow_band=True, mode='r'):
@@ -135,11 +173,29 @@ def gen_seg(rng, depth, nfiles, allow_band=True, mode='r'):
             'kids': [gen_seg(rng, depth - 1, nfiles, False, mode) for _ in range(rng.randint(2, 3))]}
 
 
+def h5_ok():
+    try:
+        import h5py      # noqa
+        return True
+    except Exception:
+        return False
+
+
 def gen_reader_case(rng):
+    case = _gen_reader_case(rng)
+    case['h5'] = list(H5)
+    return case
+
+
+def _gen_reader_case(rng):
     nfiles = rng.choice([0, 1, 2, 2, 3])
     rk = rng.random()
     ntemp = 0
-    if rng.random() < 0.25:
+    H5[:] = []
+    writable = rng.random() < 0.25
+    if not writable and nfiles and h5_ok() and rng.random() < 0.35:
+        H5[:] = sorted(rng.sample(range(nfiles), rng.randint(1, nfiles)))
+    if writable:
         # writable segment trees: the "use" op is a full write instead of a full read
         if rk < 0.6:
             root = gen_seg(rng, rng.randint(0, 3), nfiles, mode='w')
@@ -214,6 +270,21 @@ class RBuilt:
     pass
 
 
+class H5Handle:
+    """an h5py.File the caller opened, with the `.closed` / `.close()` face of a Python file object"""
+
+    def __init__(self, h5):
+        self.h5 = h5
+
+    @property
+    def closed(self):
+        return not bool(self.h5.id.valid)
+
+    def close(self):
+        if self.h5.id.valid:
+            self.h5.close()
+
+
 def build_reader(case, scratch):
     """construct the real objects of a reader case; returns RBuilt with objs (pre-order), files, temps"""
     from sarpy.io.general.data_segment import NumpyArraySegment, NumpyMemmapSegment, FileReadDataSegment, \
@@ -223,6 +294,14 @@ def build_reader(case, scratch):
     mode = case.get('mode', 'r')
     b.files, b.paths, b.arrays = [], [], []
     for i in range(case['nfiles']):
+        if i in case.get('h5', ()):
+            import h5py
+            p = os.path.join(scratch, f'data{i}.h5')
+            with h5py.File(p, 'w') as f:
+                f.create_dataset('d', data=numpy.arange(R0 * C0, dtype='<u2').reshape(R0, C0) + 7)
+            b.paths.append(p)
+            b.files.append(H5Handle(h5py.File(p, 'r')))
+            continue
         p = os.path.join(scratch, f'data{i}.bin')
         with _real_open(p, 'wb') as f:
             f.write(numpy.arange(7 + R0 * C0, dtype='<u2').tobytes())
@@ -249,6 +328,9 @@ def build_reader(case, scratch):
             o = NumpyMemmapSegment(b.files[node['file']], 14, '<u2', (R0, C0), mode=mode, close_file=node['cf'])
         elif k == 'fileread':
             o = FileReadDataSegment(b.files[node['file']], 14, '<u2', (R0, C0), '<u2', (R0, C0), close_file=node['cf'])
+        elif k == 'hdf5':
+            from sarpy.io.general.data_segment import HDF5DatasetSegment
+            o = HDF5DatasetSegment(b.files[node['file']].h5, 'd', close_file=node['cf'])
         elif k == 'reorient':
             o = ReorientationSegment(kids[0], reverse_axes=(0, ), close_parent=node['prop'])
         elif k == 'subset':
@@ -318,6 +400,9 @@ def build_filereader(case, scratch, refs):
         elif kind == 'CPHD':
             from sarpy.io.phase_history.cphd import CPHDReader
             o = CPHDReader(arg)
+        elif kind == 'CRSD':
+            from sarpy.io.received.crsd import CRSDReader
+            o = CRSDReader(arg)
         else:
             raise Infra(kind)
     segs = list(o.get_data_segment_as_tuple())
@@ -641,13 +726,14 @@ def run_shared_case(case, scratch):
 
 # ------------------------------------------------------------------------------------------------ (b) writers
 
-WKINDS = ['NITF', 'SICD', 'SIDD', 'CPHD', 'SIO']
+WKINDS = ['NITF', 'SICD', 'SIDD', 'CPHD', 'SIO', 'CRSD']
 WSHAPES = {          # (rows, cols) per data segment
     'NITF': [[(2, 5)]],
     'SICD': [[(3, 2)], [(4, 3)], [(2, 2)]],
     'SIDD': [[(3, 4), (2, 5)], [(2, 3)]],
     'CPHD': [[(3, 4)], [(2, 3)]],
     'SIO': [[(3, 3)], [(2, 4)]],
+    'CRSD': [[(3, 4)], [(2, 3)]],
 }
 
 
@@ -695,6 +781,13 @@ class Refs:
         ch.NumVectors, ch.NumSamples = r, c
         return meta
 
+    def crsd(self, r, c):
+        import crsdgen
+        key = ('crsdmeta', r, c)
+        if key not in self.cache:
+            self.cache[key] = crsdgen.build_meta('CF8', [(r, c)], False, [])      # schema-valid CRSD 1.0 built in code (harness/crsdgen.py, C11)
+        return self.cache[key].copy()
+
     def nitf_details(self):
         import sarpy.io.general.nitf as N
         with N.NITFReader(os.path.join(REPO, 'tests/data/iq.nitf')) as reader:
@@ -704,24 +797,31 @@ class Refs:
 
     # ---- writers
     def make_writer(self, kind, shapes, target, check=True):
+        kw = {} if check is None else {'check_existence': check}       # None: the argument is not given (the default applies)
         if kind == 'NITF':
             from sarpy.io.general.nitf import NITFWriter
-            return NITFWriter(target, self.nitf_details(), check_existence=check)
+            return NITFWriter(target, self.nitf_details(), **kw)
         if kind == 'SICD':
             from sarpy.io.complex.sicd import SICDWriter
-            return SICDWriter(target, self.sicd(*shapes[0]), check_existence=check)
+            return SICDWriter(target, self.sicd(*shapes[0]), **kw)
         if kind == 'SIDD':
             from sarpy.io.product.sidd import SIDDWriter
-            return SIDDWriter(target, [self.sidd(r, c) for r, c in shapes], self.sicd(3, 2), check_existence=check)
+            return SIDDWriter(target, [self.sidd(r, c) for r, c in shapes], self.sicd(3, 2), **kw)
         if kind == 'CPHD':
             from sarpy.io.phase_history.cphd import CPHDWriter1
             meta = self.cphd(*shapes[0])
-            w = CPHDWriter1(target, meta, check_existence=check)
+            w = CPHDWriter1(target, meta, **kw)
             w.write_pvp_array(0, numpy.zeros((shapes[0][0], ), dtype=meta.PVP.get_vector_dtype()))
             return w
         if kind == 'SIO':
             from sarpy.io.complex.sio import SIOWriter
-            return SIOWriter(target, self.sicd(*shapes[0]), check_existence=check)
+            return SIOWriter(target, self.sicd(*shapes[0]), **kw)
+        if kind == 'CRSD':
+            from sarpy.io.received.crsd import CRSDWriter1
+            meta = self.crsd(*shapes[0])
+            w = CRSDWriter1(target, meta, **kw)
+            w.write_pvp_array(0, numpy.zeros((shapes[0][0], ), dtype=meta.PVP.get_vector_dtype()))
+            return w
         raise Infra(kind)
 
     @staticmethod
@@ -789,7 +889,7 @@ class Refs:
                 self.cache[key] = os.path.join(REPO, 'tests/data/iq.nitf')
             else:
                 shapes = WSHAPES[kind][0]
-                p = os.path.join(self.scratch, 'readerfile_' + kind + {'SICD': '.nitf', 'SIO': '.sio', 'CPHD': '.cphd'}[kind])
+                p = os.path.join(self.scratch, 'readerfile_' + kind + {'SICD': '.nitf', 'SIO': '.sio', 'CPHD': '.cphd', 'CRSD': '.crsd'}[kind])
                 with _real_open(p, 'wb') as f:
                     f.write(self.get(kind, shapes)['full'])
                 self.cache[key] = p
@@ -803,7 +903,7 @@ def declared_size(kind, content):
             if content[:9] != b'NITF02.10':
                 return None
             return int(content[342:354])
-        if kind == 'CPHD':
+        if kind in ('CPHD', 'CRSD'):
             head = content[:content.index(b'\f\n')].decode('ascii')
             kv = dict(l.split(' := ') for l in head.splitlines()[1:] if ' := ' in l)
             return int(kv['SIGNAL_BLOCK_BYTE_OFFSET']) + int(kv['SIGNAL_BLOCK_SIZE'])
@@ -839,6 +939,8 @@ def read_back(kind, path):
         from sarpy.io.complex.sio import SIOReader as RD
     elif kind == 'CPHD':
         from sarpy.io.phase_history.cphd import CPHDReader as RD
+    elif kind == 'CRSD':
+        from sarpy.io.received.crsd import CRSDReader as RD
     with RD(path) as r:
         n = len(r.get_data_segment_as_tuple())
         return [numpy.array(r.read(index=i)) if n > 1 else numpy.array(r.read()) for i in range(n)]
@@ -847,8 +949,8 @@ def read_back(kind, path):
 def gen_writer_case(rng, kind=None, rewrite=False):
     kind = kind or rng.choice(WKINDS)
     shapes = [list(s) for s in rng.choice(WSHAPES[kind])]
-    tgt = rng.choice(['p0', 'p0', 'p1', 'm', 'm', 'r', 'r'])
-    check = rng.random() < 0.5 if tgt == 'p1' else rng.random() < 0.8
+    tgt = rng.choice(['p0', 'p0', 'p1', 'p2', 'm', 'm', 'r', 'r'])       # p1: an existing non-empty file, p2: an existing empty file
+    check = rng.random() < 0.5 if tgt in ('p1', 'p2') else rng.random() < 0.8
     n = rng.randint(1, 12)
     ops = []
     # a plan of chunks: mostly a (possibly incomplete) partition of the rows in random order
@@ -886,6 +988,14 @@ def gen_writer_case(rng, kind=None, rewrite=False):
             ops.append('d')
         else:
             ops.append(rng.choice(['f', 'c']))
+    if not rewrite and rng.random() < 0.3:
+        # non-forced flushes between the chunks: nothing incomplete may be frozen by them
+        ops2 = []
+        for op in ops:
+            ops2.append(op)
+            if op[0] == 'w' and rng.random() < 0.6:
+                ops2.append('f')
+        ops = ops2[:14]
     if rewrite and not any(op.startswith('w') and ops.count(op) > 1 for op in ops) and written:
         ops.insert(rng.randint(1, len(ops)), 'w%d,%d,%d' % rng.choice(written))
         ops = ops[:12]
@@ -894,7 +1004,8 @@ def gen_writer_case(rng, kind=None, rewrite=False):
 
 def writer_line(case):
     sh = ','.join(f'{r}x{c * (1 if case["kind"] == "SIDD" else 2)}' for r, c in case['shapes'])
-    return f"life W {case['target']} {int(case['check'])} {sh} | " + ' '.join(case['ops'])
+    tgt = 'p1' if case['target'] == 'p2' else case['target']        # the model does not look at the size of what exists (e_refusal_independent_of_content)
+    return f"life W {tgt} {int(case['check'])} {sh} | " + ' '.join(case['ops'])
 
 
 def leaves_of(seg):
@@ -919,8 +1030,8 @@ def run_writer_case(case, scratch, refs, final_readback=True):
     if os.path.exists(path):
         os.remove(path)
     pre = None
-    if tgt == 'p1':
-        pre = b'PREEXISTING' * 5000
+    if tgt in ('p1', 'p2'):
+        pre = b'PREEXISTING' * 5000 if tgt == 'p1' else b''
         with _real_open(path, 'wb') as f:
             f.write(pre)
         os.utime(path, (1000000000, 1000000000))
@@ -942,7 +1053,7 @@ def run_writer_case(case, scratch, refs, final_readback=True):
         if out != 'ok':
             # construction refused
             exc_classes[ecls] = 1
-            if not (tgt == 'p1' and case['check'] and ecls == 'SarpyIOError'):
+            if not (tgt in ('p1', 'p2') and case['check'] and ecls == 'SarpyIOError'):
                 fail('', f'construction raised {ecls} for target {tgt} check_existence={case["check"]}', -1)
             else:
                 st = os.stat(path)
@@ -957,9 +1068,9 @@ def run_writer_case(case, scratch, refs, final_readback=True):
             if caller is not None:
                 caller.close()
             return ['refused'], fails, {'exc': exc_classes, 'refused': True}
-        if tgt == 'p1' and case['check']:
-            fail('', 'an existing path was accepted although check_existence=True', -1)
-        trace.append('init:%d' % int(tgt == 'p1'))
+        if tgt in ('p1', 'p2') and case['check']:
+            fail('', f"an existing {'empty ' if tgt == 'p2' else ''}file was accepted (and truncated) although check_existence=True", -1)
+        trace.append('init:%d' % int(tgt in ('p1', 'p2')))
         segs = list(w.data_segment)
         leaves = [leaves_of(s) for s in segs]
         nseg = len(segs)
@@ -1110,7 +1221,7 @@ def oracle_writer(case, ref, obs, final, other_open, path, fail, final_readback,
         if tgt in ('m', 'r') and not o['fileOpen']:
             key = K_CPHD_CLOSE if kind == 'CPHD' and closed_seen else ''
             fail(key, f"step {step} {op}: the caller's file object was closed by the writer", step, ['fileOpen'])
-        if tgt in ('p0', 'p1'):
+        if tgt in ('p0', 'p1', 'p2'):
             if closed_seen and o['fileOpen']:
                 fail(K_SIO_OPEN if kind == 'SIO' else '', f'step {step} {op}: the file the writer opened itself is still open after close', step, ['fileOpen'])
             if not closed_seen and not o['fileOpen']:
@@ -1229,7 +1340,7 @@ def compare_writer(model_line, trace, fails):
 # ------------------------------------------------------------------------------------------------ run
 
 def gen_filereader_case(rng):
-    kind = rng.choice(['SICD', 'SICD', 'NITF', 'SIO', 'CPHD'])
+    kind = rng.choice(['SICD', 'SICD', 'NITF', 'SIO', 'CPHD', 'CRSD'])
     tgt = rng.choice(['path', 'path', 'real', 'mem']) if kind in ('SICD', 'NITF') else 'path'
     holds = not (kind == 'SIO' and tgt == 'path')      # SIOReader maps the file by name and keeps no handle
     root = {'k': 'filereader', 'prop': True, 'file': None, 'cf': False,
@@ -1245,12 +1356,42 @@ def run_case(case, scratch, refs):
             return run_reader_case(case, d, refs)
         if case['machine'] == 'S':
             return run_shared_case(case, d)
+        if case['machine'] in 'CBDAE':
+            import c19x
+            if case['machine'] == 'A':
+                return c19x.run_aggregate_case(case, d)
+            if case['machine'] == 'E':
+                return c19x.run_exist_case(case, d, refs)
+            if case['machine'] == 'C':
+                return c19x.run_ctor_case(case, d, refs)
+            if case['machine'] == 'D':
+                return c19x.run_dag_case(case, d)
+            if not hasattr(refs, 'brefs'):
+                refs.brefs = c19x.BRefs(refs)
+            return c19x.run_blocked_case(case, d, refs.brefs)
         return run_writer_case(case, d, refs)
     finally:
         shutil.rmtree(d, ignore_errors=True)
 
 
 def case_class(case, info):
+    if case['machine'] == 'A':
+        return ('A', case['agg'], len(case['done']), sum(case['done']), bool(case['done'][-1]))
+    if case['machine'] == 'E':
+        return ('E', case['kind'], case['pre'], case['check'])
+    if case['machine'] in 'CBD':
+        ops = case['ops']
+        first_close = next((i for i, o in enumerate(ops) if o in 'cxed'), None)
+        tail = (first_close is not None, first_close is not None and any(o[0] in 'rwf' for o in ops[first_close + 1:]),
+                sum(1 for o in ops if o in 'cxe') > 1, 'd' in ops)
+        if case['machine'] == 'C':
+            return ('C', case['ckind'], tuple(sorted(set(case.get('segs', ())))), case.get('ftarget'), len(case['pre']) > 0,
+                    sum(1 for p in case['plan'] if p[0] == 'b') > 1, sum(1 for p in case['plan'] if p[0] == 't') > 1) + tail
+        if case['machine'] == 'D':
+            return ('D', case['shape'], case['close_readers'], tuple(case['close_segments'])) + tail
+        return ('B', case['kind'], case['target'], case['check'], case['order'], info.get('refused'), info.get('complete'),
+                min(info.get('nsegs', 0), 3), min(info.get('nblocks', 0), 6),
+                'f' in ops[:first_close if first_close is not None else len(ops)]) + tail
     if case['machine'] == 'S':
         ops = case['ops']
         return ('S', tuple(sorted(case['views'])), case['ntemp'] > 0, any(o in 'cxed' for o in ops))
@@ -1287,16 +1428,106 @@ def witness_cases():
     return out
 
 
+def bridge_obligations(chk):
+    """regenerate Gen/Life.lean from the current source (translate/gen_life.py), build and audit Bridge/Life.lean.
+    returns (translator info, broken obligations)"""
+    import re
+    import gen_life
+    from common import lake_build, audit, ALLOWED_AXIOMS, LEAN
+    gen = gen_life.generate(os.path.join(LEAN, 'SarpyModel', 'Gen', 'Life.lean'))
+    info = {'module': 'translate/gen_life.py -> Gen/Life.lean', 'source_hashes': gen['hashes'], 'unsupported': gen['unsupported'],
+            'changed_since_last_run': gen['changed']}
+    broken = []
+    if gen['unsupported']:
+        broken.append('translator could not express: ' + json.dumps(gen['unsupported']))
+    ok, failed, errors, log = lake_build([BRIDGE_MODULE])
+    cov = chk.coverage
+    if not ok:
+        src = open(os.path.join(LEAN, 'SarpyModel', 'Bridge', 'Life.lean')).read().split('\n')
+        starts = [(i + 1, m.group(1)) for i, l in enumerate(src) for m in [re.match(r'theorem\s+(\w+)', l)] if m]
+        names = []
+        for f, l, c, m in errors:
+            if f.endswith('Bridge/Life.lean'):
+                cand = [n for (ln, n) in starts if ln <= int(l)]
+                if cand and cand[-1] not in names:
+                    names.append(cand[-1])
+        broken += [f'{BRIDGE_NS}.{n} (no longer proves against the code regenerated from the current source)' for n in names] \
+            or [f'{BRIDGE_MODULE} (lake build failed)']
+        cov['obligations'] = cov.get('obligations', 0) + len(BRIDGE_REQUIRED)
+        cov['build_errors'] = cov.get('build_errors', []) + [f'{f}:{l}:{c}: {m}' for f, l, c, m in errors[:10]]
+        info['broken_bridge_theorems'] = names
+    else:
+        k = audit(BRIDGE_MODULE, BRIDGE_NS)
+        missing = [r for r in BRIDGE_REQUIRED if f'{BRIDGE_NS}.{r}' not in k]
+        for r in missing:
+            broken.append(f'{BRIDGE_NS}.{r} (required theorem missing)')
+        bad = {n: a for n, a in k.items() if set(a) - ALLOWED_AXIOMS}
+        for n, a in bad.items():
+            broken.append(f'{n} depends on non-standard axioms {sorted(set(a) - ALLOWED_AXIOMS)}')
+        cov['obligations'] = cov.get('obligations', 0) + len(k) + len(missing)
+        cov['discharged'] = cov.get('discharged', 0) + len(k) - len(bad)
+        cov['theorems'] = sorted(set(cov.get('theorems', [])) | {'Bridge.Life.' + n[len(BRIDGE_NS) + 1:] for n in k})
+        cov['axioms_used'] = sorted(set(cov.get('axioms_used', [])) | {a for v in k.values() for a in v})
+    cov['checker_cmd'] = cov.get('checker_cmd', '') + f' && lake build {BRIDGE_MODULE}'
+    return info, broken
+
+
+def case_line(c):
+    import c19x
+    m = c['machine']
+    if m == 'R':
+        return reader_line(c)
+    if m == 'W':
+        return writer_line(c)
+    if m == 'C':
+        return c19x.ctor_line(c)
+    if m == 'B':
+        return c19x.blocked_line(c)
+    if m == 'D':
+        return c19x.dag_line(c)
+    if m == 'E':
+        return c19x.exist_line(c)
+    if m == 'A':
+        return None      # goes to the driver of the regenerated kernels (its own process)
+    return None
+
+
+def case_name(c):
+    m = c['machine']
+    if m == 'S':
+        return 'shared-child:' + '+'.join(sorted(c['views']))
+    if m == 'R':
+        return ('w:' if c.get('mode') == 'w' else '') + c['root']['k'] + (':' + c['fkind'] + ':' + c['ftarget'] if 'fkind' in c else '') \
+            + (':hdf5' if any(n['k'] == 'hdf5' for n in preorder(c['root'])) else '')
+    if m == 'C':
+        return 'ctor:' + (('NITFReader[' + '+'.join(sorted(set(c['segs']))) + ']:' + c['ftarget']) if c['ckind'] == 'nitf' else 're-entrant-init')
+    if m == 'B':
+        return f"blocked:{c['kind']}:{c['target']}"
+    if m == 'D':
+        return 'dag:' + c['shape']
+    if m == 'A':
+        return 'aggregate:' + c['agg']
+    if m == 'E':
+        return 'existence-check:' + c['kind']
+    return f"{c['kind']}:{c['target']}"
+
+
 def run(tier):
     sarpy_guard()
     logging.disable(logging.CRITICAL)
     import warnings
     warnings.simplefilter('ignore')
+    import c19x
     chk = Check('C19', tier)
     rng = chk.rng
-    broken = chk.prove(['SarpyModel.Props.C19', 'SarpyModel.Drivers'], 'SarpyModel.Props.C19', 'Sarpy.Props.C19', REQUIRED)
+    broken = chk.prove(['SarpyModel.Props.C19All', 'SarpyModel.Drivers'], 'SarpyModel.Props.C19All', 'Sarpy.Props.C19', REQUIRED)
+    gen_info, bridge_broken = bridge_obligations(chk)
+    chk.coverage['translator'] = gen_info
+    broken += bridge_broken
+    widen = 2 if bridge_broken else 1          # a broken bridge obligation widens the search on the kinds it speaks about
 
     nr, nf, nw, nrw = (160, 40, 200, 24) if tier == 'quick' else (2000, 300, 2400, 250)
+    nc, nb, nd, ncfg = ((60, 120, 30, 3) if tier == 'quick' else (600, 1500, 300, 12))
     import sys
     unraisable = []
     old_hook = sys.unraisablehook
@@ -1307,24 +1538,62 @@ def run(tier):
     cases += [gen_shared_case(rng) for _ in range(12 if tier == 'quick' else 200)]
     cases += [gen_writer_case(rng) for _ in range(nw)]
     cases += [gen_writer_case(rng, rewrite=True) for _ in range(nrw)]
+    # ---- extension: construction, blocked writers, shared children
+    cfgs = {k: [c19x.gen_blocked_cfg(rng, k) for _ in range(ncfg)] for k in c19x.BKINDS}
+    ext = [c19x.gen_ctor_case(rng, 'nitf') for _ in range(3)] + [c19x.gen_ctor_case(rng, 'reinit') for _ in range(3)]
+    for k in c19x.BKINDS:       # directed: every block of every configuration completed alone, last block first, flush after each chunk
+        for j in range(len(cfgs[k])):
+            d = c19x.gen_blocked_case(rng, {k: [cfgs[k][j]]}, k, directed=True)
+            d['directed'] = True
+            ext.append(d)
+    ext += [c19x.gen_ctor_case(rng) for _ in range(nc * widen)]
+    ext += [c19x.gen_blocked_case(rng, cfgs) for _ in range(nb * widen)]
+    dag = [c19x.gen_dag_case(rng) for _ in range(nd)]
+    for c in dag:
+        c['ops'] = [(o if not (o[0] == 'r' and int(o[1:]) > 1) else 'r%d' % (int(o[1:]) % 2)) for o in c['ops']]
+    agg_cases = c19x.gen_aggregate_cases()
+    exist_cases = c19x.gen_exist_cases(WKINDS)
+    cases += ext + dag + agg_cases + exist_cases
     if tier == 'thorough':
         cases += exhaustive_cases()
 
     drv = Driver()
     for c in cases:
-        if c['machine'] != 'S':
-            c['_q'] = drv.ask(reader_line(c) if c['machine'] == 'R' else writer_line(c))
+        line = case_line(c)
+        if line is not None:
+            c['_q'] = drv.ask(line)
     try:
         ans = drv.run()
     except Infra as e:
         ans = None
         broken.append('model driver does not build/run: ' + str(e)[:300])
+    # translator fidelity: Python originals / regenerated Lean / reference definitions on a small-scope enumeration
+    # (its own driver process: a Gen/Life.lean that does not build must not take the model driver down)
+    kreq = c19x.kernel_requests()
+    kdrv = Driver()
+    for line, _ in kreq:
+        kdrv.ask(line)
+    for c in agg_cases:
+        c['_k'] = kdrv.ask(c19x.aggregate_line(c))
+    for c in exist_cases:
+        c['_k'] = kdrv.ask(c19x.exist_gen_line(c))
+    kernel_dis, kernel_n, kans = [], 0, None
+    try:
+        kans = kdrv.run()
+        kernel_n, kernel_dis = c19x.kernel_threeway(kans, kreq)
+    except Infra as e:
+        if not bridge_broken:
+            broken.append('driver of the regenerated kernels does not build/run: ' + str(e)[:300])
+        chk.notes.append('regenerated kernels could not be run: ' + str(e)[:200])
 
     scratch = tempfile.mkdtemp(prefix='c19_', dir='/var/tmp')
     fails, disagreements = [], []
+    disagreements += [{'case': {'machine': 'K', 'ops': []}, 'msg': d['msg']} for d in kernel_dis]
     classes, exc_hist, kinds_hist = set(), {}, {}
-    samples, wsamples = [], []
+    samples, wsamples, xsamples = [], [], {}
     masked_histories = 0
+    lag = {}
+    ctor_stats = {'readers_with_cache_files': 0, 'cache_files_created': 0, 'cache_files_registered_when_init_returned': 0}
     try:
         refs = Refs(scratch)
         for c in cases:
@@ -1332,14 +1601,16 @@ def run(tier):
             trace, fl, info = run_case(c, scratch, refs)
             for k, v in info.get('exc', {}).items():
                 exc_hist[k] = exc_hist.get(k, 0) + v
-            if c['machine'] == 'S':
-                name = 'shared-child:' + '+'.join(sorted(c['views']))
-            elif c['machine'] == 'R':
-                name = ('w:' if c.get('mode') == 'w' else '') + c['root']['k'] + (':' + c['fkind'] + ':' + c['ftarget'] if 'fkind' in c else '')
-            else:
-                name = f"{c['kind']}:{c['target']}"
+            name = case_name(c)
             kinds_hist[name] = kinds_hist.get(name, 0) + 1
             classes.add(case_class(c, info))
+            if c['machine'] == 'C' and info.get('created'):
+                ctor_stats['readers_with_cache_files'] += 1
+                ctor_stats['cache_files_created'] += info['created']
+                ctor_stats['cache_files_registered_when_init_returned'] += info['registered_at_end_of_construction']
+            if info.get('lag'):
+                key = f"{c['kind']}:text={c['cfg'].get('text', 0)}:des={c['cfg'].get('des', 0)}"
+                lag[key] = lag.get(key, 0) + 1
             # one failure per (history, key) is enough
             seen = set()
             hist_keys = sorted({f['key'] for f in fl})
@@ -1351,12 +1622,33 @@ def run(tier):
                 fails.append(f)
             if any(f['key'] for f in fl):
                 masked_histories += 1
+            kq = c.pop('_k', None)
+            if c['machine'] == 'A' and kans is not None and kq is not None:
+                dis = c19x.compare_aggregate(kans[kq], trace)
+                if dis and not fl:
+                    disagreements.append({'case': c, 'msg': '; '.join(dis)})
+            if c['machine'] == 'E':
+                if ans is not None and q is not None:
+                    dis = c19x.compare_exist(ans[q], kans[kq] if (kans is not None and kq is not None) else None, trace)
+                    if dis and not fl:
+                        disagreements.append({'case': c, 'msg': '; '.join(dis)})
+                q = None
             if ans is not None and q is not None:
                 line = ans[q]
                 if line == 'bad-op':
                     disagreements.append({'case': c, 'msg': 'the model driver rejected the request'})
                 else:
-                    dis = (compare_reader if c['machine'] == 'R' else compare_writer)(line, trace, fl)
+                    m = c['machine']
+                    if m == 'R':
+                        dis = compare_reader(line, trace, fl)
+                    elif m == 'W':
+                        dis = compare_writer(line, trace, fl)
+                    elif m == 'C':
+                        dis = c19x.compare_ctor(line, trace, fl)
+                    elif m == 'B':
+                        dis = c19x.compare_blocked(line, trace, fl)
+                    else:
+                        dis = c19x.compare_dag(line, trace, info['names'])
                     if dis and not any(not f['key'] for f in fl):
                         disagreements.append({'case': c, 'msg': '; '.join(dis[:3]), 'model': line[:400], 'impl': ' '.join(trace)[:400]})
                     elif dis:
@@ -1365,6 +1657,8 @@ def run(tier):
                 wsamples.append(writer_line(c) + '  ->  ' + ' '.join(trace)[:300])
             if len(samples) < 3 and c['machine'] == 'R' and len(preorder(c['root'])) > 3:
                 samples.append(reader_line(c) + '  ->  ' + ' '.join(trace)[:300])
+            if c['machine'] in 'CBD' and c['machine'] not in xsamples and len(c['ops']) > 3:
+                xsamples[c['machine']] = case_line(c) + '  ->  ' + ' '.join(trace)[:300]
     finally:
         shutil.rmtree(scratch, ignore_errors=True)
         gc.collect()
@@ -1377,18 +1671,34 @@ def run(tier):
         'evaluations': len(cases),
         'distinct_nontrivial': len(classes),
         'rule': 'random op histories (length <= 12; read / write-chunk / flush / close / context exit with and without '
-                'exception / del+gc) over: random segment trees (array, memmap, file-read leaves sharing caller file objects; '
+                'exception / del+gc) over: random segment trees (array, memmap, file-read, HDF5 leaves sharing caller file objects; '
                 'reorientation, subset, band and block aggregates with random close_parent / close_children / close_file), '
-                'BaseReader / FlatReader / AggregateReader over them with temp files, sarpy file readers (SICD, NITF, SIO, CPHD; '
-                'path / real file object / BytesIO), and the NITF, SICD, SIDD (two images), CPHD, SIO writers to a new path, an '
+                'BaseReader / FlatReader / AggregateReader over them with temp files, sarpy file readers (SICD, NITF, SIO, CPHD, CRSD; '
+                'path / real file object / BytesIO), and the NITF, SICD, SIDD (two images), CPHD, CRSD, SIO writers to a new path, an '
                 'existing path (check on/off), a BytesIO and a caller-opened real file, with complete / incomplete / empty '
-                'partitions of the rows in random order, plus a small stream with rewritten chunks; distinct = distinct '
-                '(machine, object kind, node kinds or target, ownership options, complete?, rewritten?, closed?, use after close?, '
-                'double close?, flush before close?, del?) tuples',
-        'samples': samples + wsamples,
-        'traces_validated_against_impl': sum(1 for c in cases if c['machine'] != 'S'),
+                'partitions of the rows in random order, plus a small stream with rewritten chunks. Extension: NITFReader over '
+                'generated NITF files with 1-3 image segments each JPEG (one block / 2x2 blocks), JPEG 2000 or uncompressed (path / real '
+                'file / BytesIO); BaseReader subclasses with random re-entrant construction plans (own list initialisation, temp files '
+                'registered before the base initialisation, BaseReader.__init__ once or several times with delete_files); general '
+                'NITFWriter (1-2 image segments, stacked or separate, blocked with padded last blocks, 8/16 bit, optional text / DES '
+                'segments), SICDWriter and SIDDWriter with row limit (several image segments) and / or blocked subheaders: rectangular '
+                'chunks of a random grid in random / reverse / last-block-first order, histories up to 14 ops (<= 40 directed) with '
+                'non-forced flushes, out-of-range writes, every target; one directed history per configuration that completes every '
+                'block alone, last block first, with a flush after each chunk; readers sharing children (five DAG shapes) through the '
+                'tree unfolding; hand-built Block / Band aggregates with every subset of 2-3 children completed; the existence check of '
+                'every path-taking writer family (NITF, SICD, SIDD, CPHD, CRSD, SIO) x {nothing, empty file, non-empty file, directory} '
+                'at the path x check_existence {not given, False, True}, and histories on an existing empty file next to the existing '
+                'non-empty one; distinct = distinct (machine, object kind, node kinds or target, ownership options, order, '
+                'complete?, rewritten?, closed?, use after close?, double close?, flush before close?, del?) tuples',
+        'samples': samples + wsamples + [xsamples[k] for k in sorted(xsamples)],
+        'traces_validated_against_impl': sum(1 for c in cases if c['machine'] not in 'SA') + (len(agg_cases) if kans is not None else 0),
         'disagreements_checked': len(disagreements),
         'object_kinds': kinds_hist,
+        'blocked_configurations': {k: v for k, v in cfgs.items()},
+        'reader_construction': ctor_stats,
+        'regenerated_kernels_three_way_evaluations': kernel_n,
+        'regenerated_kernels_three_way_disagreements': len(kernel_dis),
+        'caller_real_file_lags_until_caller_flush_after_close': lag,
         'exception_classes_seen': exc_hist,
         'histories_with_keyed_finding_masked_fields': masked_histories,
         'exceptions_raised_inside_finalisers': {k: unraisable.count(k) for k in sorted(set(unraisable))},
@@ -1396,29 +1706,35 @@ def run(tier):
         'failing_inputs_by_key': {k or '(unclassified)': len(v) for k, v in by_key.items()},
     })
     chk.assumptions += [
-        'the theorems are about the state machines of Spec/Lifecycle.lean; they speak about sarpy only as far as the op-history correspondence of this run reaches (object kinds and counts are in coverage.object_kinds)',
+        'the theorems are about the state machines of Spec/Lifecycle.lean; they speak about sarpy only as far as the op-history correspondence of this run reaches (object kinds and counts are in coverage.object_kinds) and as far as the bridge theorems of Bridge/Life.lean tie the regenerated decision kernels (fully-written loops and counters, the hand-over decision of NITFWriter.flush, the construction phases of BaseReader / NITFReader) to the reference definitions',
+        'translate/gen_life.py is not proved; its fidelity is what the construction / blocked-writer correspondence of this run observes (a mistranslation shows as a model / implementation disagreement)',
         'garbage collection is exercised only as `del` + gc.collect() of the root object under CPython reference counting; finaliser ordering under a real collector and OS-level handle reuse are outside the model',
         'after `del` the closed flag of the deleted object itself is not observable; the model value is taken',
-        'file content of path / real-file targets is observed by re-reading the file (numpy.memmap writes are assumed coherent with read() through the page cache)',
-        'which bytes belong to which row is learnt from reference outputs written through the same writers to a path (one row at a time); the byte layout itself is the subject of C02/C03/C09, not of this check',
+        'file content of path / real-file targets is observed by re-reading the file (numpy.memmap writes are assumed coherent with read() through the page cache); for blocked writers on a caller-opened real file the caller object is flushed by the harness before the path is read: "the file object holds the output" is read as "everything has been handed to the file object" (how many closes left bytes in the caller buffer is counted in coverage.caller_real_file_lags_until_caller_flush_after_close)',
+        'which bytes belong to which row / pixel is learnt from reference outputs written through the same writers to a path (one row at a time; for blocked writers one pixel at a time in bit-coded groups); the byte layout itself is the subject of C02/C03/C09, not of this check',
         'use after close must raise; any exception class is accepted there (classes seen are in coverage.exception_classes_seen), the model output is `refused`',
-        'accounting theorems (claims = complete, complete output) carry the hypothesis that no row is written twice; the counter-example without it is proved (claims_without_fresh_is_false) and replayed on the implementation',
-        'objects shared between two parents (a DAG) cannot be expressed in the Lean tree model; a small directed stream (reader over two views of one segment) is checked by the direct oracle only',
-        'multi-image-segment NITF writers (block aggregates of memory maps: images beyond 99999 rows/columns or the 10 GB segment limit) are not exercised; SIDD with two product images gives the two-data-segment writer case',
-        'JPEG / JPEG2000 NITF readers (temp files created by sarpy itself), HDF5 segments, CRSD (no CRSD metadata in tests/data; CRSDWriter1 inherits close/flush from CPHDWriter1) are not exercised; temp-file removal is exercised through BaseReader(delete_files=...)',
+        'accounting theorems (claims = complete, complete output, hand-over only when complete) carry the hypothesis that no row / pixel is written twice; the counter-example without it is proved (claims_without_fresh_is_false) and replayed on the implementation',
+        'objects shared between parents (a DAG) are run against the tree machine through the tree unfolding (an object is closed iff one of its copies is; exact for single-root histories because close is idempotent per object); the reduction itself is validated by this correspondence, not proved; temp files of inner readers are checked by the oracle only',
+        'a closed block aggregate has dropped its children, so after close the fully-written claim of an image segment is the last value observed before close (nothing changes after close); per-block claims and counters are read from the children the harness kept',
+        'JPEG 2000 / JPEG decoding is PIL; multi-block JPEG pixel values are not compared here (reading is C01); IMODE=S and masked compressed segments, the GFF reader (its own cache-file scheme) and NITF 2.0 are not exercised',
     ]
     unknown_keys = [k for k in by_key if not (k and chk.known(k))]
-    nviol = 0
+    # unclassified failures are reported once per machine (object family), the shortest history of each
+    groups = {}
     for k in unknown_keys:
+        for f in by_key[k]:
+            groups.setdefault((k, f['case']['machine'] if not k else ''), []).append(f)
+    nviol = 0
+    for (k, mach) in sorted(groups, key=lambda g: (g[0], 'BCEWRDSA'.find(g[1]))):
         if nviol >= 5:
             break
-        f = min(by_key[k], key=lambda f: (len(f['hist_keys']), len(f['case']['ops'])))
+        f = min(groups[(k, mach)], key=lambda f: (len(f['hist_keys']), len(f['case']['ops'])))
         chk.violation(f['msg'] + (f' [{k}]' if k else ''),
-                      {'key': k, 'case': f['case'], 'count_in_this_run': len(by_key[k]),
+                      {'key': k, 'case': f['case'], 'count_in_this_run': len(groups[(k, mach)]), 'broken_obligations': broken,
                        'replay_cmd': './check C19 --replay <this file>'}, True)
         nviol += 1
-    if len(unknown_keys) > 5:
-        chk.notes.append(f'{len(unknown_keys)} distinct failure classes found, first 5 reported')
+    if len(groups) > 5:
+        chk.notes.append(f'{len(groups)} distinct failure classes found, first 5 reported')
     if not unknown_keys and (broken or disagreements):
         chk.violation('proof obligation or correspondence no longer checks: ' + '; '.join(broken[:3] + [d['msg'][:200] for d in disagreements[:2]]),
                       {'broken_obligations': broken, 'disagreements': disagreements[:10]}, False)
@@ -1461,7 +1777,7 @@ def replay(path):
         return 1
     print('case:', json.dumps(case))
     if case['machine'] != 'S':
-        print('model request:', reader_line(case) if case['machine'] == 'R' else writer_line(case))
+        print('model request:', case_line(case))
     scratch = tempfile.mkdtemp(prefix='c19r_', dir='/var/tmp')
     try:
         refs = Refs(scratch)
